@@ -58,6 +58,19 @@ Section Wire.
   (* int(uint64 a - uint64 b) etc.: the arithmetic of calculatePullingOperations on uint64, read as int64 *)
   Definition u64sub (a b : N) : N := (a + two64 - b) mod two64.
 
+  (* excludeDuplicatedOperations: which of the response's operations are executed.  own = this
+     client's id, c = the checkpoint before the response (after the subscribe reset, if any).
+     (Always Some since the repair; the option is kept for the panic of the unrepaired code.) *)
+  Definition incoming (own : str) (sub : bool) (c : cp) (r : ppp) : option (list op) :=
+    let pulled := wrap64 (Z.of_N (u64sub (u64sub (sseq (p_cp r)) (sseq c)) (u64sub (cseq (p_cp r)) (cseq c)))) in
+    (* own operations in a non-subscribe response were stored by an exchange whose response was lost *)
+    let others := filter (fun o => negb (str_eqb (o_cuid (op_id o)) own)) (p_ops r) in
+    let cand := if sub then p_ops r else others in
+    (* of the foreign operations the new ones are the last [pulled]; a negative count (a response older
+       than the checkpoint) means nothing new *)
+    let k := Z.to_nat (Z.max 0 pulled) in
+    Some (skipn (length cand - k) cand).
+
   Definition apply_pack (w : wdt) (r : ppp) : ares :=
     let d := w_d w in
     if has (p_opt r) bit_error then
@@ -71,7 +84,7 @@ Section Wire.
       (* checkOptionAndError, subscribe branch *)
       let sub := has (p_opt r) bit_subscribe in
       let bad_sub := sub && negb (match p_ops r with o :: _ => is_snap o | [] => false end) in
-      if bad_sub then AOk w (mkApplied (Some 201) false false)
+      if (sub && dstate_eqb (w_state w) SubscribedSt) || bad_sub then AOk w (mkApplied (Some 201) false false)
       else
         let d1 := if sub
                   then let i := mkOpid (o_era (d_oid d)) (o_lam (d_oid d)) (o_cuid (d_oid d)) 0 in
@@ -81,15 +94,9 @@ Section Wire.
         let duid1 := if sub then p_duid r else w_duid w in
         (* excludeDuplicatedOperations *)
         let c := d_cp d1 in
-        let pulled := wrap64 (Z.of_N (u64sub (u64sub (sseq (p_cp r)) (sseq c)) (u64sub (cseq (p_cp r)) (cseq c)))) in
-        let n := Z.of_nat (length (p_ops r)) in
-        (* own operations in a non-subscribe response were stored by an exchange whose response was lost *)
-        let others := filter (fun o => negb (str_eqb (o_cuid (op_id o)) (o_cuid (d_oid d1)))) (p_ops r) in
-        let by_identity := negb sub && negb (Nat.eqb (length others) (length (p_ops r))) in
-        if negb by_identity && (pulled <? n)%Z && (pulled <? 0)%Z then APanic          (* ops[skip:] with skip > len *)
-        else
-          let ops := if by_identity then others
-                     else if (pulled <? n)%Z then skipn (Z.to_nat (n - pulled)) (p_ops r) else p_ops r in
+        match incoming (o_cuid (d_oid d1)) sub c r with
+        | None => APanic
+        | Some ops =>
           (* syncCheckPoint *)
           let c' := mkCp (N.max (sseq c) (sseq (p_cp r))) (N.max (cseq c) (cseq (p_cp r))) in
           (* updateStateOfDatatype *)
@@ -103,7 +110,8 @@ Section Wire.
           | ROk _ _ _ d3 => AOk (mkWdt d3 SubscribedSt duid2 (w_key w)) (mkApplied None due false)
           | RError _ _ _ d3 => AOk (mkWdt d3 SubscribedSt duid2 (w_key w)) (mkApplied None due true)
           | _ => APanic
-          end.
+          end
+        end.
 End Wire.
 
 Arguments mkWdt {St call J}.
